@@ -8,6 +8,7 @@ import (
 	"strings"
 
 	sdk "github.com/cosmos/cosmos-sdk/types"
+	"github.com/cosmos/cosmos-sdk/x/group"
 
 	beacontypes "github.com/unification-com/mainchain/x/beacon/types"
 	wrkchaintypes "github.com/unification-com/mainchain/x/wrkchain/types"
@@ -176,6 +177,21 @@ func (m *monC06) Name() string { return "C06" }
 // feeOracle: Σ over every WRKChain/BEACON operation, however nested, of the applicable fee, from
 // the parameters the chain reports, in big-integer arithmetic. Returns sums per fee denomination.
 func feeOracle(w *World, ctx sdk.Context, msgs []sdk.Msg) (map[string]*big.Int, int, error) {
+	s, n, _, err := feeOracleDeep(w, ctx, msgs)
+	return s, n, err
+}
+
+// feeOracleDeep also reports how many of the operations are reached through an x/group proposal.
+func feeOracleDeep(w *World, ctx sdk.Context, msgs []sdk.Msg) (map[string]*big.Int, int, int, error) {
+	leaves, viaGroup := FlattenDeep(msgs)
+	s, n, err := feeOracleLeaves(w, ctx, leaves)
+	if n == 0 {
+		viaGroup = 0
+	}
+	return s, n, viaGroup, err
+}
+
+func feeOracleLeaves(w *World, ctx sdk.Context, leaves []Leaf) (map[string]*big.Int, int, error) {
 	wp, err := regView{"wrk"}.params(w, ctx)
 	if err != nil {
 		return nil, 0, err
@@ -193,7 +209,7 @@ func feeOracle(w *World, ctx sdk.Context, msgs []sdk.Msg) (map[string]*big.Int, 
 	}
 	u := func(x uint64) *big.Int { return new(big.Int).SetUint64(x) }
 	n := 0
-	for _, lf := range Flatten(msgs) {
+	for _, lf := range leaves {
 		switch x := lf.Msg.(type) {
 		case *wrkchaintypes.MsgRegisterWrkChain:
 			add(wp.Denom, u(wp.FeeReg))
@@ -223,12 +239,31 @@ func (m *monC06) AfterCheck(w *World, tx *TxCtx) {
 		return
 	}
 	ctx := w.Ref.App.BaseApp.NewContext(true, w.Hdr)
-	want, n, err := feeOracle(w, ctx, tx.Msgs)
+	want, n, viaGroup, err := feeOracleDeep(w, ctx, tx.Msgs)
 	if err != nil {
 		w.Violate("C06", "C06/params-query-error", "%v", err)
 		return
 	}
 	if n == 0 {
+		return
+	}
+	if viaGroup > 0 {
+		// operations executed through an x/group proposal (EXEC_TRY) inside this transaction
+		w.Probe("c06.via-group-proposal")
+		if !groupWouldExecute(w, tx.Msgs) {
+			// unknown policy or a proposer who is not its member: the proposal would not execute
+			w.Probe("c06.via-group-proposal-that-cannot-execute")
+			return
+		}
+		if tx.Check.Code != 0 {
+			w.Probe("c06.rejected")
+			return
+		}
+		for _, d := range sortedDenoms(want) {
+			if offered := tx.Fee.AmountOf(d).BigInt(); offered.Cmp(want[d]) != 0 {
+				w.Violate("C06", "C06/admitted-with-wrong-fee/group-proposal", "CheckTx admitted %s offering %q; the %d module operations it executes through a group proposal cost %s%s", kindsOf(tx), tx.Fee.String(), n, want[d], d)
+			}
+		}
 		return
 	}
 	nested := !hasRegistryMsg(tx.Msgs)
@@ -592,4 +627,27 @@ func (m *monC09) checkAll(w *World, ctx sdk.Context) {
 			w.Violate("C09", "C09/"+v.kind+"/registration-count-differs", "chain lists %d, model %d", n, len(rm.Regs))
 		}
 	}
+}
+
+// groupWouldExecute: every EXEC_TRY group proposal in the transaction addresses an existing policy
+// and is proposed by that policy's (only) member, so it passes and runs at once.
+func groupWouldExecute(w *World, msgs []sdk.Msg) bool {
+	ok := false
+	for _, lf := range Flatten(msgs) {
+		sp, is := lf.Msg.(*group.MsgSubmitProposal)
+		if !is || sp.Exec != group.Exec_EXEC_TRY {
+			continue
+		}
+		found := false
+		for k := uint64(1); k <= w.M.Grp.N; k++ {
+			if PolicyAddr(k).String() == sp.GroupPolicyAddress && len(sp.Proposers) == 1 && sp.Proposers[0] == w.M.Grp.Admin[k] {
+				found = true
+			}
+		}
+		if !found {
+			return false
+		}
+		ok = true
+	}
+	return ok
 }
